@@ -120,7 +120,7 @@ PROPS = {
     "C12": {
         "level_text": "Lean theorems C12_lists_scoped / C12_list_sites_known (obligations on the client.List call sites extracted from the Go source on this run: every list of replica sets, pods or settings carries a namespace option), C12_deletes_owned, C12_create_owned (every replica set the EDS reconcile deletes or creates is in its namespace, carries its name label, is owned by it) about the model of the EDS Reconcile; the real Reconcile runs against a fake API server populated with replica sets and pods of a same-named EDS in another namespace and of another EDS in the same namespace, every write is intercepted and classified own/foreign, and the writes are compared with the model's.",
         "level_note": TB + "Modelled by hand: the EDS Reconcile as store -> writes (ReconcileEds.lean). The list-site facts come from tools/extract (syntactic: option composite literals and InNamespace calls reaching the List call). Pod-level writes of the replica-set controller are covered by the ers_reconcile stream when registered.",
-        "streams": [("eds_reconcile", 2500, 40000)],
+        "streams": [("eds_reconcile", 2500, 40000), ("ers_reconcile", 2500, 40000)],
         "trusted_base": ["tools/extract list-site facts; hand-written L2 model of the EDS Reconcile tied by the eds_reconcile stream (fake client = consistent reads)"],
         "assumptions": COMMON_ASSUME,
     },
